@@ -218,6 +218,17 @@ func (a Attr) UnmarshalToType(data []byte) (any, error) {
 		err error
 	)
 
+	// encoding/json treats null as a no-op, so it has to be rejected here
+	// for strings and times. (A nil byte slice is marshaled as null, which
+	// is why null is still read back as an empty bytes attribute.)
+	if string(data) == "null" && (a.Type == AttrTypeString || a.Type == AttrTypeTime) {
+		return nil, NewErrInvalidFieldValueInBody(
+			a.Name,
+			string(data),
+			GetAttrTypeString(a.Type, a.Nullable),
+		)
+	}
+
 	switch a.Type {
 	case AttrTypeString:
 		var s string
